@@ -10,7 +10,7 @@ from oracles import simple as OS
 
 PROPERTY = "C16"
 LENGTHS = [0.5, 1.0, 2.0, 3.0]
-BIRTHS = [[0.0, 0.0, 0.0, 0.0], [0.0, 1.0, 2.0, 5.0], [-3.0, 1.0, -1.0, 2.0]]
+BIRTHS = [[0.0, 0.0, 0.0, 0.0, 0.0], [0.0, 1.0, 2.0, 5.0, 3.0], [-3.0, 1.0, -1.0, 2.0, -7.5]]
 RULE = (
     "all barcodes = multisets of <= 4 bar lengths from {1/2,1,2,3} x 3 birth patterns (incl. negative "
     "births); per barcode: all 8 flag combinations (keep_inf, val_inf, normalize) x 0..2 infinite bars, "
@@ -23,10 +23,18 @@ TOL = 1e-12
 
 
 def bounds(tier):
-    return {"lengths": LENGTHS, "max_bars": 4, "birth_patterns": BIRTHS}
+    return {"lengths": LENGTHS if tier == "quick" else LENGTHS_T, "max_bars": 4 if tier == "quick" else 5, "birth_patterns": BIRTHS}
+
+
+LENGTHS_T = [1e-6, 0.25, 0.5, 1.0, 2.0, 3.0, 7.0, 1e6]
 
 
 def cases(tier):
+    if tier == "thorough":
+        for ls in multisets_upto(LENGTHS_T, 5, min_size=1):
+            for bi in range(len(BIRTHS)):
+                yield {"lengths": list(ls), "births": bi}
+        return
     for ls in multisets_upto(LENGTHS, 4, min_size=1):
         for bi in range(len(BIRTHS)):
             yield {"lengths": list(ls), "births": bi}
@@ -39,7 +47,15 @@ def mk(lengths, births):
 def pe(ctx, *a, **kw):
     from persim.persistent_entropy import persistent_entropy
 
-    return ctx.call(persistent_entropy, *a, **kw)
+    args = a[0] if isinstance(a[0], list) else [a[0]]
+    before = [x.tobytes() for x in args if isinstance(x, np.ndarray)]
+    try:
+        return ctx.call(persistent_entropy, *a, **kw)
+    finally:
+        ctx.valid()
+        if [x.tobytes() for x in args if isinstance(x, np.ndarray)] != before:
+            ctx.violation("argument-modified", "persistent_entropy modified its input array (flags %r)" % (kw,),
+                          observed=[np.asarray(x).tolist() for x in args])
 
 
 def expect(ctx, sig, got, want, what, extra):
@@ -108,7 +124,7 @@ def run_case(case, ctx):
         infbars = [[births[0], INF], [births[1] + 0.5, INF]][:n_inf]
         Dinf = infbars[:1] + D + infbars[1:]
         Ainf = np.array(Dinf, dtype=float)
-        for keep_inf, val_inf, normalize in itertools.product((False, True), (None, 9.0), (False, True)):
+        for keep_inf, val_inf, normalize in itertools.product((True, False), (9.0, None), (False, True)):
             kw = dict(keep_inf=keep_inf, val_inf=val_inf, normalize=normalize)
             extra = {"dgm": Dinf, "flags": kw}
             if keep_inf and val_inf is None:
